@@ -46,8 +46,7 @@ func TestVerifBoundedMapModel(t *testing.T) {
 	maxOps := 5
 	nk := 6
 	if os.Getenv("VERIF_TIER") == "thorough" {
-		maxOps = 6
-		nk = 7
+		nk = 7 // one more key; a sixth operation would be 26^6 histories
 	}
 	type op struct {
 		kind int // 0 set, 1 delete, 2 rest, 3 append-other, 4 range-prefix
